@@ -33,6 +33,18 @@ class HeterCallbackListBase
 protected:
 	struct HeterHandle_
 	{
+		// A default-initialised handle is an empty handle whatever its storage held before.
+		// Without these constructors `Handle h;` left the prototype index indeterminate and
+		// remove(h) indexed the prototype table with it.
+		HeterHandle_() : index(0), homoHandle()
+		{
+		}
+
+		HeterHandle_(const int index, std::weak_ptr<void> homoHandle)
+			: index(index), homoHandle(std::move(homoHandle))
+		{
+		}
+
 		int index;
 		std::weak_ptr<void> homoHandle;
 
